@@ -6,6 +6,7 @@ subclass turns ``is_killed`` into a property that counts reads of the loop condi
 every call of the *real* ``run()`` executes exactly one pass of the loop, whatever the body does.
 """
 import collections
+import time as _time
 import types
 
 from pynetdicom2 import dulprovider, fsm
@@ -97,7 +98,12 @@ class Clock(object):
         return cls.now
 
 
+SELECT_SLEEP = 0.0        # > 0 in the real-thread tests: an idle poll yields the processor, as a real select() does
+
+
 def fake_select(r, w, x, timeout=None):
+    if SELECT_SLEEP and timeout and not any(not s.closed and s.readable() for s in r):
+        _time.sleep(SELECT_SLEEP)
     for s in r:
         if s.closed:
             # what select() does with a closed socket (fileno() is -1)
